@@ -140,8 +140,11 @@ func (obj *SparseFloat32Vector) SLICE(i, j int) *SparseFloat32Vector {
       break
     }
     k := it.Get()
-    r.values[k-i] = obj.values[k]
-    r.indexInsert(k-i)
+    // the index may contain keys without an entry
+    if v, ok := obj.values[k]; ok {
+      r.values[k-i] = v
+      r.indexInsert(k-i)
+    }
   }
   return r
 }
